@@ -37,20 +37,27 @@ theorem C03_btc_spends_validated {S A : Type} [DecidableEq S] (kind : Kind) (amo
   | some i =>
     simp only [hf] at h
     obtain ⟨o, ho, hp⟩ := findIdx_spec _ _ _ hf
-    simp only [ho, Option.some.injEq] at h
+    simp only [ho] at h
+    by_cases hfee : wrapI64 (o.value - 200) ≤ wrapI64 (fee : Int)
+    · rw [if_pos hfee] at h; cases h
+    rw [if_neg hfee] at h
+    simp only [Option.some.injEq] at h
     subst h
     simp only [Bool.and_eq_true, beq_iff_eq, decide_eq_true_eq] at hp
     refine ⟨⟨o, ho, hp.1, hp.2⟩, ?_⟩
     exact PsVerif.Props.C01.C01_btc_complete amount want outs ⟨o, List.mem_of_getElem? ho, hp.1, hp.2⟩
 
 /-- shape of the transaction: version 2, one output (to the address the wallet handed out), the value is the swap
-    amount minus 200 sat minus the fee (all of it miner fee: there is no other output), the signature commits to
-    the amount of the spent output, the sequence is the CSV exactly for the refund -/
+    amount minus 200 sat minus the fee (all of it miner fee: there is no other output) and is POSITIVE (the
+    hypothesis `fee + 200 ≤ amount` this theorem needed at first marked a defect: a fee that eats the whole output
+    gave a transaction with a negative output; repaired in /repo, the builder now refuses), the signature commits
+    to the amount of the spent output, the sequence is the CSV exactly for the refund -/
 theorem C03_btc_shape {S A : Type} [DecidableEq S] (kind : Kind) (amount : Nat) (want : S)
     (outs : List (BtcOut S)) (csv fee : Nat) (addr : A) (own other pre : Bytes) (tx : SpendTx A)
     (h : buildBtc kind amount want outs csv fee addr own other pre = some tx)
-    (ha : amount < 9223372036854775808) (hf : fee + 200 ≤ amount) :
-    tx.version = 2 ∧ tx.outputs = [((amount : Int) - 200 - (fee : Int), addr)] ∧ tx.sighashAmount = (amount : Int) ∧
+    (ha : amount < 9223372036854775808) (hfb : fee < 9223372036854775808) :
+    tx.version = 2 ∧ tx.outputs = [((amount : Int) - 200 - (fee : Int), addr)] ∧ 0 < (amount : Int) - 200 - (fee : Int) ∧
+    tx.sighashAmount = (amount : Int) ∧
     tx.sequence = seqOf kind csv ∧ tx.witness = witnessOf kind own other pre := by
   have hv := C03_btc_spends_validated kind amount want outs csv fee addr own other pre tx h
   obtain ⟨⟨o, ho, hval, _⟩, _⟩ := hv
@@ -62,9 +69,17 @@ theorem C03_btc_shape {S A : Type} [DecidableEq S] (kind : Kind) (amount : Nat) 
     have hi : tx.prevIndex = i := by
       cases hoi : outs[i]? with
       | none => simp [hoi] at h
-      | some o' => simp only [hoi, Option.some.injEq] at h; subst h; rfl
+      | some o' =>
+        simp only [hoi] at h
+        split at h
+        · cases h
+        · simp only [Option.some.injEq] at h; subst h; rfl
     rw [hi] at ho
-    simp only [ho, Option.some.injEq] at h
+    simp only [ho] at h
+    by_cases hfee : wrapI64 (o.value - 200) ≤ wrapI64 (fee : Int)
+    · rw [if_pos hfee] at h; cases h
+    rw [if_neg hfee] at h
+    simp only [Option.some.injEq] at h
     subst h
     have e1 := PsVerif.Props.C01.C01_btc_amount amount ha
     have w1 : ∀ x : Int, -9223372036854775808 ≤ x → x < 9223372036854775808 → wrapI64 x = x := by
@@ -78,7 +93,10 @@ theorem C03_btc_shape {S A : Type} [DecidableEq S] (kind : Kind) (amount : Nat) 
           have := Int.add_emod_right x 18446744073709551616
           rw [← this]; exact Int.emod_eq_of_lt (by omega) (by omega)
         rw [this, if_pos (by omega)]; omega
-    refine ⟨rfl, ?_, e1, ?_, rfl⟩
+    have hpos : (fee : Int) < (amount : Int) - 200 := by
+      rw [hval, e1, w1 ((amount : Int) - 200) (by omega) (by omega), w1 (fee : Int) (by omega) (by omega)] at hfee
+      omega
+    refine ⟨rfl, ?_, by omega, e1, ?_, rfl⟩
     · simp only [hval, e1]
       rw [w1 ((amount : Int) - 200) (by omega) (by omega), w1 (fee : Int) (by omega) (by omega),
         w1 ((amount : Int) - 200 - (fee : Int)) (by omega) (by omega)]
